@@ -135,6 +135,6 @@ def check(tier, seed):
                       trusted=['clang-14 front end and -O2 code generation', 'LLVM IR semantics as modelled by irflow', 'x86 lane table', 'reference stages in gen/linalg_common.py'],
                       floors=load_floors('C12', tier),
                       assumptions=['exact (real) arithmetic: the c*n*eps*cond(A)*||b|| bound is NOT decided (DESIGN.md §6)', 'pivoted strategies and QR/Cholesky solve tags: not analysed (data-dependent pivot search / not implemented)'],
-                      extra_cov={'not_decided': 'floating-point residual bound; pivoted strategies'})
+                      extra_cov={'not_decided': 'floating-point residual bound; pivoted strategies end to end for n > 3 outside the P*D family'})
     finally:
         R.cleanup()
